@@ -4,5 +4,5 @@ cd "$(dirname "$0")/.."
 TIER="${1:-quick}"
 for id in $(python3 -c "import json;print(' '.join(c['property_id'] for c in json.load(open('MANIFEST.json'))['checks']))"); do
   out=$(./run.sh $id $TIER 2>&1); code=$?
-  echo "$id exit=$code $(echo "$out" | grep -E '^(HELD|INCONCLUSIVE|violation class|KNOWN-FINDING)' | cut -c1-160 | tr '\n' ' ')"
+  echo "$id exit=$code $(echo "$out" | grep -E '^(HELD|INCONCLUSIVE|violation class)' | cut -c1-200 | tr '\n' ' ') $(echo "$out" | grep -c '^KNOWN-FINDING') known-finding line(s)"
 done
